@@ -157,6 +157,8 @@ class Interface(ModelElement):
                                                                             iname=name)
 
         self.topo.graph_model.remove_cp_and_links(node_id=node_id, delete_parent=False)
+        # keep the cached list of child interfaces of this handle in step with the model
+        self._interfaces = [i for i in self._interfaces if i.node_id != node_id]
 
     def __list_interfaces(self) -> ViewOnlyDict:
         """
